@@ -117,7 +117,7 @@ func genConds(repo, outDir string) {
 	tick := &condTr{what: "handleTicker", vocab: map[string]string{
 		"curBatch.IsEmpty()": "isEmpty", "curBatch.IsFull()": "isFull",
 		"curBatch.ModifyTime()": "mtime", "curBatch.CreateTime()": "ctime",
-		"time.Now().UnixNano()": "now",
+		"time.Now().UnixNano()":               "now",
 		"b.flushBatchUpdateAge.Nanoseconds()": "updAge", "b.flushBatchMaxAge.Nanoseconds()": "maxAge",
 		"totalMemory": "total", "b.batcherMemorySoftLimit": "limit",
 	}, isInt: map[string]bool{"mtime": true, "ctime": true, "now": true, "updAge": true, "maxAge": true, "total": true, "limit": true}}
